@@ -3,8 +3,6 @@
 From NV Require Import Base C03_Model.
 
 (* ---------- strings.Cut ---------- *)
-Definition store_value (ty name : string) : string := ty ++ String colon name.
-
 Lemma cut_spec c s l r : cut_byte c s = Some (l, r) ->
   s = (l ++ String c r)%string /\ contains_byte c l = false.
 Proof.
@@ -529,8 +527,6 @@ Proof.
   - destruct (IH Hr) as (b & Hb & Hn). exists b. split; [exact Hb | exact Hn].
 Qed.
 
-Definition is_x509 (s : scheme) : bool := match s with SX509 => true | _ => false end.
-
 Lemma tsa_calls_char sch fs ts stores : forallb has_sep stores = true ->
   tsa_calls sch fs ts stores = if is_x509 sch && ts then expected_calls fs ty_tsa stores else [].
 Proof.
@@ -793,16 +789,64 @@ Proof.
   assert (Hsep : forallb has_sep (st_stores st) = true).
   { rewrite forallb_forall in Hval. specialize (Hval st Hin). rewrite forallb_forall in Hval.
     apply forallb_forall. intros s Hs. apply valid_store_sep, Hval, Hs. }
-  assert (Hsep' : forall s, In s (st_stores st) -> contains_byte colon s = true)
-    by (rewrite forallb_forall in Hsep; exact Hsep).
   destruct (store_type_of (i_scheme i)) as [ty|] eqn:Hty.
   2:{ destruct (i_scheme i); cbn in Hty, Hsch; discriminate. }
+  assert (Hcalls : forallb (call_allowed i st ty (o_stop (model i))) (o_calls (model i)) = true).
+  { apply forallb_forall. intros [t n] Hk. destruct (calls_only_listed i t n Hk) as (st' & Hs' & Hl & Hor).
+    rewrite Es in Hs'. inversion Hs'; subst st'. unfold call_allowed. cbn [fst snd].
+    apply andb_true_iff. split; [now apply mem_str_In|].
+    destruct Hor as [Hor | (-> & Hx & Ht & Hts & Hst)].
+    - rewrite Hty in Hor. inversion Hor; subst. now rewrite String.eqb_refl.
+    - rewrite Hx, Ht, Hts, Hst. cbn. apply orb_true_r. }
   destruct (st_action st) eqn:Ea.
   3:{ unfold model. now rewrite Es, Ea. }
   1,2: assert (Hn : st_action st <> SkipLevel) by congruence;
-       rewrite (model_auth i st Es Hn), (calls_exact i st ty Es Hn Hty Hsep'), (model_stop i st Es Hn), Ea;
+       rewrite Hcalls, (model_auth i st Es Hn), (model_stop i st Es Hn), Ea;
        rewrite (auth_stage_char i st ty Hty Hsep); cbn [fst];
-       rewrite aclass_eqb_refl, eqb_reflx; cbn [andb];
-       destruct (i_scheme i); cbn [is_x509 andb] in *; try discriminate; rewrite ?andb_false_r; cbn [andb];
-       apply calls_eqb_refl.
+       rewrite !eqb_reflx; reflexivity.
+Qed.
+
+(* no store is consulted twice *)
+Lemma NoDup_app_intro {A} (l1 l2 : list A) : NoDup l1 -> NoDup l2 ->
+  (forall x, In x l1 -> ~ In x l2) -> NoDup (l1 ++ l2).
+Proof.
+  induction l1 as [|a l1 IH]; cbn; [auto|]. intros H1 H2 Hd. inversion H1; subst. constructor.
+  - intros Hin. apply in_app_or in Hin. destruct Hin as [Hin|Hin]; [contradiction|].
+    exact (Hd a (or_introl eq_refl) Hin).
+  - apply IH; auto; intros x Hx; apply Hd; now right.
+Qed.
+
+Lemma NoDup_firstn {A} k : forall (l : list A), NoDup l -> NoDup (firstn k l).
+Proof.
+  induction k as [|k IH]; intros l H; [constructor|]. destruct l as [|a l]; [constructor|].
+  cbn. inversion H; subst. constructor; [|now apply IH].
+  intros Hin. apply H2. revert Hin. clear. revert l. induction k as [|k IH]; intros l; cbn; [tauto|].
+  destruct l; cbn; [tauto|]. intros [->|Hin]; [now left | right; now apply IH].
+Qed.
+
+Lemma NoDup_map_pair (ty : string) (l : list string) : NoDup l -> NoDup (map (fun x => (ty, x)) l).
+Proof.
+  induction l as [|a l IH]; cbn; intros H; [constructor|]. inversion H; subst. constructor; [|now apply IH].
+  intros Hin. apply in_map_iff in Hin. destruct Hin as (x & E & Hx). inversion E; subst. contradiction.
+Qed.
+
+Lemma expected_calls_NoDup fs ty stores : NoDup (expected_calls fs ty stores).
+Proof.
+  unfold expected_calls. destruct (upto_err_prefix fs ty (uniq (names_of_type ty stores))) as [k ->].
+  apply NoDup_map_pair, NoDup_firstn, uniq_NoDup.
+Qed.
+
+Theorem calls_nodup : forall i st ty,
+  select (i_policy i) (i_repo i) = Some st -> st_action st <> SkipLevel ->
+  store_type_of (i_scheme i) = Some ty ->
+  (forall s, In s (st_stores st) -> contains_byte colon s = true) ->
+  NoDup (o_calls (model i)).
+Proof.
+  intros i st ty Hs Ha Hty Hsep. rewrite (calls_exact i st ty Hs Ha Hty Hsep).
+  apply NoDup_app_intro; [apply expected_calls_NoDup | |].
+  - destruct (_ && _); [apply expected_calls_NoDup | constructor].
+  - intros [t n] H1 H2. destruct (_ && _); [|contradiction].
+    unfold expected_calls in H1, H2. apply in_map_iff in H1. apply in_map_iff in H2.
+    destruct H1 as (x & E1 & _). destruct H2 as (y & E2 & _). inversion E1; inversion E2; subst.
+    destruct (i_scheme i); cbn in Hty; inversion Hty; subst; discriminate.
 Qed.
